@@ -1,6 +1,7 @@
 package redis
 
 import (
+	"sort"
 	"strings"
 
 	"github.com/New-JAMneration/JAM-Protocol/internal/database"
@@ -27,7 +28,9 @@ func (db *redisDB) NewIterator(prefix []byte, start []byte) (database.Iterator, 
 	allKeys := make([]string, 0, 100)
 	var err error
 
-	pattern := startString + "*"
+	prefixString := string(prefix)
+	// escape glob metacharacters of the prefix: SCAN MATCH takes a glob pattern
+	pattern := globEscape(prefixString) + "*"
 
 	for {
 		var keys []string
@@ -38,7 +41,7 @@ func (db *redisDB) NewIterator(prefix []byte, start []byte) (database.Iterator, 
 
 		// Filter keys that match the prefix
 		for _, key := range keys {
-			if strings.HasPrefix(key, startString) {
+			if strings.HasPrefix(key, prefixString) && key >= startString {
 				allKeys = append(allKeys, key)
 			}
 		}
@@ -47,6 +50,16 @@ func (db *redisDB) NewIterator(prefix []byte, start []byte) (database.Iterator, 
 			break
 		}
 	}
+
+	// SCAN returns keys in no particular order (and may repeat one): sort, dedupe
+	sort.Strings(allKeys)
+	uniq := allKeys[:0]
+	for i, key := range allKeys {
+		if i == 0 || key != allKeys[i-1] {
+			uniq = append(uniq, key)
+		}
+	}
+	allKeys = uniq
 
 	// Pre-allocate capacity for keys and values
 	keys := make([][]byte, 0, len(allKeys))
@@ -69,6 +82,19 @@ func (db *redisDB) NewIterator(prefix []byte, start []byte) (database.Iterator, 
 		keys:   keys,
 		values: values,
 	}, nil
+}
+
+// globEscape escapes the characters that are special in a Redis glob pattern.
+func globEscape(s string) string {
+	var sb strings.Builder
+	for i := 0; i < len(s); i++ {
+		switch s[i] {
+		case '*', '?', '[', ']', '\\':
+			sb.WriteByte('\\')
+		}
+		sb.WriteByte(s[i])
+	}
+	return sb.String()
 }
 
 // Next advances the iterator to the next key/value pair.
